@@ -77,7 +77,7 @@ c.finish(
         "bytes are < 256; conforming encodings are those of coq/C06/Conform.v (ISO 32000-2 7.4.2, 7.4.3, 7.4.5): any "
         "record split, any white space before the EOD marker, either digit case, odd digit counts, z or !!!!!",
         "the Go referees implement the standards they name: compress/zlib, encoding/ascii85, compress/lzw (EarlyChange 0), "
-        "golang.org/x/image/tiff/lzw (EarlyChange 1), golang.org/x/image/ccitt (T.4 1-D with EOL, T.6)",
+        "golang.org/x/image/tiff/lzw (EarlyChange 1), golang.org/x/image/ccitt (T.4 1-D with EOL, T.6), image/png (filter types 0-4)",
     ],
     trusted=[
         "models coq/C06/*.v written from ISO 32000-2 7.4 / PNG 9 / TIFF 6.0 section 14, extracted and used as independent codecs",
